@@ -9,7 +9,8 @@ struct Relay {
 	std::string case_q = "keep", case_a = "keep";   // keep|lower|upper|random
 	std::string hibit = "keep";                      // keep|strip|reject   (bytes >= 0x80 in query names)
 	std::string hibit_a = "keep";                    // keep|strip          (bytes >= 0x80 in names inside answers)
-	std::string plus = "keep", under = "keep";       // keep|mangle|reject
+	std::string plus = "keep", under = "keep";       // keep|mangle|reject  (query names)
+	std::string plus_a = "keep", under_a = "keep";   // keep|mangle         (names inside answers)
 	std::set<int> refuse; std::string refuse_mode = "servfail";   // servfail|notimp|drop
 	int maxans = 0; std::string big = "drop";        // drop|servfail|tc
 	std::string edns = "keep";                       // keep|strip|drop
